@@ -183,7 +183,8 @@ func (k *c04) judge(c *core.Ctx, i int, dir string, j *gen.Journal, faults int, 
 	}
 	// the report commands must agree with check
 	if kind != "enum" || i%7 == 0 {
-		for _, args := range [][]string{{"print", "j.knut"}, {"balance", "--to", "2030-01-01", "j.knut"}} {
+		// (`check --write` additionally prints a set of assertions; its verdict is check's)
+		for _, args := range [][]string{{"print", "j.knut"}, {"balance", "--to", "2030-01-01", "j.knut"}, {"check", "--write", "j.knut"}} {
 			// balance of a journal without transactions is a separate matter (C14)
 			if args[0] == "balance" && !hasTxn(j) {
 				continue
@@ -191,7 +192,11 @@ func (k *c04) judge(c *core.Ctx, i int, dir string, j *gen.Journal, faults int, 
 			r2 := knut(c, dir, nil, args...)
 			c.Eval(1)
 			if (r2.Class == "ok") != v.OK {
-				c.Violation(core.Witness{Case: i, Key: args[0] + "-disagrees-with-check",
+				key := args[0] + "-disagrees-with-check"
+				if args[0] == "check" {
+					key = "check-write-disagrees-with-check"
+				}
+				c.Violation(core.Witness{Case: i, Key: key,
 					Why:   fmt.Sprintf("%s exits with class %s although the journal's verdict is ok=%v: %s", args[0], r2.Class, v.OK, fmtErr(r2)),
 					Files: map[string][]byte{"j.knut": []byte(text)}, Cmd: knutCmd(c, nil, args...)})
 				return false
